@@ -36,10 +36,11 @@ StepOK(rec) ==
     ELSE IF rec.op = "swap" THEN
         rec.out = "ok" /\ Sane(rec.post) /\ ToSt(rec.post) = ToSt(rec.pre) /\ rec.post.cur = 1 - rec.pre.cur
         /\ ~rec.post.oat /\ rec.post.on = 0
+        /\ rec.post.offk = rec.pre.offk       \* the node offset travels with the contents
     ELSE LET md == Model(rec) IN
          /\ rec.out = (IF md.m.ab THEN "abort" ELSE "ok")
          /\ Norm(rec.ev) = md.m.ev
-         /\ ~md.m.ab => /\ SameSt(rec.post, md.m.s) /\ rec.ret = md.ret /\ Aux(rec.post) = Aux(rec.pre)
+         /\ ~md.m.ab => /\ SameSt(rec.post, md.m.s) /\ rec.ret = md.ret /\ Aux(rec.post) = Aux(rec.pre) /\ rec.post.offk = rec.pre.offk
                         /\ rec.post.nlive = (IF md.m.s.at THEN 1 ELSE 0)
                         /\ rec.op = "stat" => rec.size = md.m.s.n
 
